@@ -86,8 +86,18 @@ def run(ctx) -> None:
     subs = [c for c in ast.walk(fcls.node) if isinstance(c, ast.Call) and call_name(c) in ("re.sub", "re.finditer", "re.findall", "re.compile", "re.split", "re.fullmatch", "re.match") and c.args]
     pats = []
     for c in subs:
+        arg0 = c.args[0]
+        if isinstance(arg0, ast.Name):
+            # a local of the enclosing function bound once to a constant pattern
+            encl = next((a_ for a_ in prog.ancestors(c) if isinstance(a_, ast.FunctionDef)), None)
+            while encl is not None:
+                binds = [st.value for st in ast.walk(encl) if isinstance(st, ast.Assign) and any(isinstance(t, ast.Name) and t.id == arg0.id for t in st.targets)]
+                if len(binds) == 1:
+                    arg0 = binds[0]
+                    break
+                encl = next((a_ for a_ in prog.ancestors(encl) if isinstance(a_, ast.FunctionDef)), None)
         try:
-            pv = const_eval(prog, ap.module, c.args[0])
+            pv = const_eval(prog, ap.module, arg0)
         except ValueError:
             raise AnalysisError(f"{F}: token regex {short(c, 60)} is not a constant")
         if isinstance(pv, str) and pv not in [p_ for p_, _ in pats]:
@@ -177,6 +187,8 @@ def run(ctx) -> None:
                 bulk.append((c, a0.key, a0.value))
             elif isinstance(a0, ast.Dict):
                 bulk.extend((c, k, v) for k, v in zip(a0.keys, a0.values) if k is not None)
+            elif isinstance(a0, (ast.GeneratorExp, ast.ListComp)) and isinstance(a0.elt, ast.Tuple) and len(a0.elt.elts) == 2:
+                bulk.append((c, a0.elt.elts[0], a0.elt.elts[1]))  # update() with an iterable of (key, value) pairs
             else:
                 bulk.append((c, a0, a0))
     # ---------------------------------------------------------------- R3
